@@ -102,7 +102,7 @@ def trigOneOf (S : SchemaIR) : Bool := S.types.any isOneOf
 /-- imported names the emitted module still needs *after* the type-map variable is bound -/
 def shadowSensitive : List Name :=
   ["DirectiveLocation", "GraphQLArgument", "GraphQLDirective", "GraphQLField", "GraphQLInputField",
-   "GraphQLInterfaceType", "GraphQLList", "GraphQLNonNull", "GraphQLObjectType", "GraphQLSchema",
+   "GraphQLList", "GraphQLNonNull", "GraphQLSchema",
    "GraphQLID", "GraphQLInt", "GraphQLFloat", "GraphQLString", "GraphQLBoolean", "Undefined", "cast", "List"]
 
 /-- C16-F2: the configured type-map variable name shadows one of those imports -/
